@@ -14,10 +14,13 @@ type Env struct {
 	st      *State // current heap
 	old     *State // heap at function entry
 	vars    map[string]Val
+	bound   map[string]Val // quantifier variables and spec-function parameters (shadow everything)
 	lookup  func(name string) (Val, bool)
 	fn      *ssa.Function // for resolving type names
 	depth   int
 	results []Val
+	inOld   bool
+	now     *State // the current state while evaluating inside old()
 }
 
 func (e *Env) clone() *Env {
@@ -25,6 +28,10 @@ func (e *Env) clone() *Env {
 	n.vars = map[string]Val{}
 	for k, v := range e.vars {
 		n.vars[k] = v
+	}
+	n.bound = map[string]Val{}
+	for k, v := range e.bound {
+		n.bound[k] = v
 	}
 	return &n
 }
@@ -63,6 +70,14 @@ func (f *frame) baseEnv(st *State) *Env {
 		if v, ok := f.vals[fv]; ok {
 			// free variables are pointers to the captured variable
 			env.vars["&"+fv.Name()] = v
+		}
+	}
+	if f.top && f.spec != nil {
+		// let-bound names denote entry-state values
+		for _, l := range f.spec.Lets {
+			le := env.clone()
+			le.st = f.entry
+			env.vars[l.Kind] = f.vc.evalSpec(le, l.Expr)
 		}
 	}
 	return env
@@ -152,13 +167,22 @@ func (vc *VC) evalSpec(env *Env, e SExpr) Val {
 		case "nil":
 			return Val{T: "Null", Typ: types.Typ[types.UntypedNil]}
 		}
-		if v, ok := env.vars[x.Name]; ok {
+		if v, ok := env.bound[x.Name]; ok {
 			return v
+		}
+		if env.inOld {
+			// inside old(): parameters denote entry values; locals that have no entry value stay current
+			if v, ok := env.vars[x.Name]; ok {
+				return v
+			}
 		}
 		if env.lookup != nil {
 			if v, ok := env.lookup(x.Name); ok {
 				return v
 			}
+		}
+		if v, ok := env.vars[x.Name]; ok {
+			return v
 		}
 		// captured variable of a closure
 		if v, ok := env.vars["&"+x.Name]; ok {
@@ -173,9 +197,14 @@ func (vc *VC) evalSpec(env *Env, e SExpr) Val {
 		}
 		return vc.specErr("unknown identifier %q", x.Name)
 	case *SOld:
+		// old(e): e in the entry state; identifiers denote entry values (parameters), not loop-carried locals
 		o := env.clone()
+		if !env.inOld {
+			o.now = env.st
+		}
 		o.st = env.old
 		o.lookup = env.lookup
+		o.inOld = true
 		return vc.evalSpec(o, x.X)
 	case *SUn:
 		v := vc.evalSpec(env, x.X)
@@ -186,6 +215,15 @@ func (vc *VC) evalSpec(env *Env, e SExpr) Val {
 	case *SBin:
 		return vc.evalSpecBin(env, x)
 	case *SField:
+		// field of a struct that lives in memory: load only that field
+		if loc, t, ok := vc.specPlace(env, x.X); ok {
+			if st, isS := t.Underlying().(*types.Struct); isS {
+				if idx, ft := findField(st, x.Name); idx >= 0 {
+					fl := App("Fld", loc, fmt.Sprint(vc.sorts.FieldID(t, idx)))
+					return Val{T: vc.loadVal(env.st, fl, ft, "true", false), Typ: ft}
+				}
+			}
+		}
 		v := vc.evalSpec(env, x.X)
 		return vc.specField(env, v, x.Name)
 	case *SIndex:
@@ -223,7 +261,7 @@ func (vc *VC) evalSpec(env *Env, e SExpr) Val {
 				return vc.specErr("unknown type %q of bound variable", vd.Type)
 			}
 			name := "q_" + vd.Name
-			q.vars[vd.Name] = Val{T: name, Typ: t}
+			q.bound[vd.Name] = Val{T: name, Typ: t}
 			decls = append(decls, fmt.Sprintf("(%s %s)", name, vc.sorts.SortOf(t)))
 			if b, ok := t.Underlying().(*types.Basic); ok && b.Info()&types.IsInteger != 0 && b.Kind() != types.Int {
 				ranges = append(ranges, RangeOf(t, name))
@@ -518,6 +556,16 @@ func (vc *VC) evalSpecCall(env *Env, x *SCall) Val {
 			return Val{T: vc.mapLen(env.st, v), Typ: intT}
 		}
 		return vc.specErr("len of %s", v.Typ)
+	case "now":
+		// now(e) inside old(...): e in the current state
+		if env.inOld && env.now != nil {
+			n := env.clone()
+			n.st = env.now
+			n.inOld = false
+			n.lookup = env.lookup
+			return vc.evalSpec(n, x.Args[0])
+		}
+		return arg(0)
 	case "cap":
 		return Val{T: App("sl.cap", arg(0).T), Typ: intT}
 	case "min", "max":
@@ -543,6 +591,13 @@ func (vc *VC) evalSpecCall(env *Env, x *SCall) Val {
 		return vc.specErr("fresh of %s", v.Typ)
 	case "base":
 		return Val{T: App("sl.base", arg(0).T), Typ: types.Typ[types.UnsafePointer]}
+	case "root":
+		// allocation identity of the object a slice/pointer points into
+		v := arg(0)
+		if vc.sorts.SortOf(v.Typ) == "Slice" {
+			return Val{T: App("rt", App("sl.base", v.T)), Typ: intT}
+		}
+		return Val{T: App("rt", v.T), Typ: intT}
 	case "offset":
 		return Val{T: App("sl.off", arg(0).T), Typ: intT}
 	case "int", "int64", "uint64", "uint32", "uint16", "uint8", "byte", "int32", "uint":
@@ -589,7 +644,7 @@ func (vc *VC) evalSpecCall(env *Env, x *SCall) Val {
 	if env.depth > 8 {
 		return vc.specErr("pure function recursion too deep at %s", x.Fun)
 	}
-	inner := &Env{vc: vc, st: env.st, old: env.old, vars: map[string]Val{}, fn: env.fn, depth: env.depth + 1}
+	inner := &Env{vc: vc, st: env.st, old: env.old, vars: map[string]Val{}, bound: map[string]Val{}, fn: env.fn, depth: env.depth + 1}
 	for i, p := range pf.Params {
 		a := arg(i)
 		if t := vc.resolveType(env, p.Type); t != nil && a.Typ == untypedInt {
@@ -597,7 +652,7 @@ func (vc *VC) evalSpecCall(env *Env, x *SCall) Val {
 		} else if t != nil && !isUntypedNil(a.Typ) {
 			a.Typ = t
 		}
-		inner.vars[p.Name] = a
+		inner.bound[p.Name] = a
 	}
 	return vc.evalSpec(inner, pf.Body)
 }
@@ -743,8 +798,8 @@ func (f *frame) loopModPats(li *loopInfo, pre *State) []modPat {
 		switch x := a.(type) {
 		case *ssa.FieldAddr:
 			stT := x.X.Type().Underlying().(*types.Pointer).Elem()
-			b, s, _ := addrPat(x.X)
-			return b, append(s, step{fld: vc.sorts.FieldID(stT, x.Field)}), true
+			b, s, rel := addrPat(x.X)
+			return b, append(s, step{fld: vc.sorts.FieldID(stT, x.Field)}), rel
 		case *ssa.IndexAddr:
 			if _, isSl := x.X.Type().Underlying().(*types.Slice); isSl {
 				if outside(x.X) {
@@ -754,8 +809,8 @@ func (f *frame) loopModPats(li *loopInfo, pre *State) []modPat {
 				}
 				return "", []step{{elem: true}}, true
 			}
-			b, s, _ := addrPat(x.X)
-			return b, append(s, step{elem: true}), true
+			b, s, rel := addrPat(x.X)
+			return b, append(s, step{elem: true}), rel
 		case *ssa.Alloc:
 			// allocated inside the loop: fresh each iteration, covered by rt > top
 			return "", nil, false
@@ -820,6 +875,19 @@ func (f *frame) callModPats(cc *ssa.CallCommon, li *loopInfo, all func(string), 
 	}
 	callee := cc.StaticCallee()
 	if callee == nil {
+		if cands := funcCandidates(cc.Value, map[ssa.Value]bool{}); len(cands) > 0 {
+			for _, c := range cands {
+				spec := vc.Eng.Spec.Funcs[FuncName(c)]
+				if spec == nil || !spec.HasAssign {
+					all("call through func value to " + FuncName(c) + " without assigns clause")
+					return nil
+				}
+				for _, cl := range spec.Assigns {
+					pats = append(pats, f.typeLevelPats(c, cl)...)
+				}
+			}
+			return pats
+		}
 		all("dynamic call")
 		return nil
 	}
@@ -967,4 +1035,52 @@ func autoPattern(body string, qvars []string) string {
 		}
 	}
 	return strings.Join(pats, " ")
+}
+
+// specPlace returns the memory location denoted by an expression that names
+// a struct stored in memory (slice element or field of such), so that field
+// selections load a single cell instead of the whole struct.
+func (vc *VC) specPlace(env *Env, e SExpr) (string, types.Type, bool) {
+	switch x := e.(type) {
+	case *SIndex:
+		if _, star := x.I.(*SStar); star {
+			return "", nil, false
+		}
+		v := vc.evalSpec(env, x.X)
+		sl, ok := v.Typ.Underlying().(*types.Slice)
+		if !ok {
+			return "", nil, false
+		}
+		if _, isStruct := sl.Elem().Underlying().(*types.Struct); !isStruct {
+			return "", nil, false
+		}
+		i := vc.evalSpec(env, x.I)
+		return App("at_", v.T, i.T), sl.Elem(), true
+	case *SField:
+		if loc, t, ok := vc.specPlace(env, x.X); ok {
+			if st, isS := t.Underlying().(*types.Struct); isS {
+				if idx, ft := findField(st, x.Name); idx >= 0 {
+					if _, inner := ft.Underlying().(*types.Struct); inner {
+						return App("Fld", loc, fmt.Sprint(vc.sorts.FieldID(t, idx))), ft, true
+					}
+				}
+			}
+			return "", nil, false
+		}
+		// pointer-to-struct value . field-of-struct-type
+		if id, isIdent := x.X.(*SIdent); isIdent {
+			_ = id
+		}
+		v := vc.evalSpec(env, x.X)
+		if p, isP := v.Typ.Underlying().(*types.Pointer); isP {
+			if st, isS := p.Elem().Underlying().(*types.Struct); isS {
+				if idx, ft := findField(st, x.Name); idx >= 0 {
+					if _, inner := ft.Underlying().(*types.Struct); inner {
+						return App("Fld", v.T, fmt.Sprint(vc.sorts.FieldID(p.Elem(), idx))), ft, true
+					}
+				}
+			}
+		}
+	}
+	return "", nil, false
 }
